@@ -4,6 +4,7 @@ from .. import gen, core
 from ..real import hex6
 
 ID = "C06"
+STATEFUL = True     # some blocks keep a live object across lines
 LEAN_TARGETS = ["Cider.Props.C06", "Cider.Props.C02Tie", "Cider.Props.C05Tie"]
 P = "Cider.C06."
 THEOREMS = ["Cider.C02.gen_charge_eq_published", "Cider.C05.gen_omegaX_eq_published"] + [P + t for t in (
@@ -15,7 +16,9 @@ RULE = ("each case = one sequence with 14 calls on fresh objects: get_Omega, kap
         "('B', 'AB', '', '1', a non-string member), get_Omega_sequence, and an OVERLAPPING pair (model correspondence only: outside the "
         "property's quantifier). oracle 1: the relations between the real values; oracle 2: real value == exact model value; "
         "non-trivial = distinct (sequence, groups) with both recoded classes present")
-BAD = [["B"], ["AB"], [""], ["1"], [None], ["A", "Z"], ["a", "e", "x"], ["*"], ["E", None]]
+BAD = [["B"], ["AB"], [""], ["1"], [None], ["A", "Z"], ["a", "e", "x"], ["*"], ["E", None],
+       # members that are not single residues although every character of them is a residue letter
+       ["ED"], ["E", "D", ""], ["GLY"], ["k", "r", "his"], ["KR"], ["P", "E", "D", "K", "R", "pSer"], ["AA"]]
 
 
 def tok(group, as_str=False):
@@ -60,15 +63,30 @@ RELS = [(0, 1, "Omega == kappa_X(PEDKR)"), (2, 3, "kappa == kappa_X(ED,KR)"), (4
 
 
 def cases(rng, tier):
+    # the property's own queries AFTER other public calls on the same object (same answers as on a fresh one)
+    for c in gen.after_calls_cases(rng, 16 if tier == "quick" else 120, ['omega', 'kappaX s000050,s000045,s000044,s00004b,s000052 -', 'kappaX s000045,s000044 s00004b,s000052', 'kappa', 'omegaseq']):
+        yield c
     n = 5 if tier == "quick" else 7
     for pat in gen.patterns_upto(n, lo=4):
         s = gen.spell(pat, rng)
         yield Case(block(s, rng), {"kind": "exhaustive"}, nontrivial=len(set(s)) >= 2)
     for kind, s in gen.rand_seqs(rng, 150 if tier == "quick" else 1500, 150):
         yield Case(block(s, rng), {"kind": kind}, nontrivial=len(set(s)) >= 2)
+    # one recoded class rare (1-3 residues of 15-45), in both orientations: the lopsided no-neutral regime of the delta-max search
+    for _ in range(40 if tier == "quick" else 300):
+        L = rng.randint(15, 45)
+        k = rng.randint(1, 3)
+        major, minor = ("GSQNTAYHCMLIVFW", "PEDKR") if rng.random() < 0.5 else ("PEDKR", "GSQNTAYHCMLIVFW")
+        s = [rng.choice(major) for _ in range(L)]
+        for i in rng.sample(range(L), k):
+            s[i] = rng.choice(minor)
+        yield Case(block("".join(s), rng), {"kind": "rare-class"})
 
 
 def judge(case, reals, gens, specs):
+    if case.tags.get("kind") == "after-other-calls":
+        from ..runner import default_judge
+        return default_judge(None, case, reals, gens, specs)
     out = []
     for i, (r, g, s) in enumerate(zip(reals, gens, specs)):
         if not core.match(r, s)[0]:
